@@ -706,6 +706,9 @@ class B(object):
                 # a decorator expression that reads names: visible there is what is bound where the statement stands
                 d = 'use(%s)' % self._read(dict(ctx, hard_forbid=True), own_forbid)
                 self.features.add('decorator-reads-name')
+            if self.chance(30):
+                d = '(%s)' % d          # a parenthesised decorator (python 3.9+): a layout may move the expression below its @
+                self.features.add('decorator-parenthesised')
             deco.append(ind + '@' + d)
         params, sig = self.params(ctx, is_method, own_forbid)
         ret = ''
@@ -713,7 +716,7 @@ class B(object):
             ret = ' -> %s' % self._read(dict(ctx, hard_forbid=True), own_forbid)
             self.features.add('return-annotation')
         kw = 'def'
-        if deco and deco[0].strip().startswith('@use') and not is_method and self.chance(30):
+        if deco and deco[0].strip().lstrip('@(').startswith('use') and not is_method and self.chance(30):
             kw = 'async def'            # never called (the decorator replaces it): only its header is evaluated
             self.features.add('async-def')
         lines = deco + [ind + '%s %s(%s)%s:' % (kw, fname, ', '.join(params), ret)]
@@ -748,7 +751,7 @@ class B(object):
         if not deco or deco[0].endswith('use') is False:
             pass
         if not ctx.get('in_class_direct'):
-            if deco and deco[0].strip().startswith('@use'):
+            if deco and deco[0].strip().lstrip('@(').startswith('use'):
                 self.funcs.pop(fname, None)
             else:
                 self.funcs[fname] = (sig['lo'], sig['hi'], sig['kwreq'], [])
